@@ -3,11 +3,12 @@
 # quick check, expect exit 0 everywhere, restore the tree.
 # usage: tools/benign.sh <name> <patch> [check ids...]
 V="$(cd "$(dirname "$0")/.." && pwd)"
+REPO="${REPO:-/repo}"; mkdir -p "$V/.build"
 name=$1; patch=$2; shift 2
 checks="$@"; [ -z "$checks" ] && checks="C01 C02 C03 C04 C05 C06 C07 C08 C09 C10 C11 C12 C13 C14 C15 C16 C17"
 cd "$V"
-if [ -n "$(git -C /repo status --porcelain --untracked-files=no)" ]; then echo "/repo is dirty"; exit 2; fi
-git -C /repo apply "$patch" || { echo "patch does not apply to /repo"; exit 2; }
+if [ -n "$(git -C "$REPO" status --porcelain --untracked-files=no)" ]; then echo "$REPO is dirty"; exit 2; fi
+git -C "$REPO" apply "$patch" || { echo "patch does not apply to $REPO"; exit 2; }
 mkdir -p .build/benign
 res=""
 for p in $checks; do
@@ -17,5 +18,5 @@ for p in $checks; do
   fi
   res="$res $p:$code"
 done
-git -C /repo checkout -- .
+git -C "$REPO" checkout -- .
 echo "BENIGN $name $res"
